@@ -102,7 +102,7 @@ def cases(tier, seed, shard, nshards):
                         if k % nshards != shard:
                             continue
                         yield {"k": "join", "d": dl[k % 6], "base": base, "item": item, "l": lsrc, "r": rsrc, "samecol": samecol,
-                               "form": form, "extra": []}
+                               "form": form, "extra": [], "pre": [None, "siblings", "render", "copy"][(k // nshards) % 4]}
     rnd = random.Random("C14:%d:%d" % (seed, shard))
     for _ in range((40000 if tier == "quick" else 600000) // nshards):
         srcs = ["base", "item", "foreign", "base-copy", "item-copy", "prev-join", "update", "base2", "none", "foreign2",
@@ -110,7 +110,8 @@ def cases(tier, seed, shard, nshards):
         yield {"k": "join", "d": rnd.choice(dl), "base": rnd.choice(SRC_SHAPES), "item": rnd.choice(SRC_SHAPES),
                "l": rnd.choice(srcs), "r": rnd.choice(srcs), "samecol": rnd.random() < 0.5, "form": rnd.choice(OPERAND_FORMS),
                "extra": [[rnd.choice(srcs), rnd.choice(srcs), rnd.choice(["and", "or"])] for _ in range(rnd.randint(0, 2))],
-               "how": rnd.choice(["on", "on", "on", "using", "on_field", "cross"]), "foreign_shape": rnd.choice(SRC_SHAPES[:5])}
+               "how": rnd.choice(["on", "on", "on", "using", "on_field", "cross"]), "foreign_shape": rnd.choice(SRC_SHAPES[:5]),
+               "pre": rnd.choice([None, None, "siblings", "render", "copy"])}
     # set operations
     for d in dl:
         for n0 in range(1, 5):
@@ -144,7 +145,9 @@ def cases(tier, seed, shard, nshards):
     # returning
     for stmt in ("insert", "update", "delete", "select", "update-join", "update-from", "insert-select", "update-cross-join", "update-using-join"):
         for term in ("field-own", "field-str", "star-str", "star", "const", "const-str-wrapped", "arith-own", "arith-foreign", "field-foreign",
-                     "field-joined", "function", "aggregate", "null", "tuple", "field-equal-copy", "field-temporal-copy"):
+                     "field-joined", "function", "aggregate", "null", "tuple", "field-equal-copy", "field-temporal-copy",
+                     "arith-mixed", "arith-mixed-rev", "arith-own-joined", "arith-joined-own", "arith-joined-foreign", "tuple-mixed",
+                     "arith-own-own", "nested-arith-mixed"):
             k += 1
             if k % nshards == shard:
                 yield {"k": "returning", "stmt": stmt, "term": term}
@@ -209,9 +212,39 @@ def run_join(case, mon):
     pool = {"base": base, "item": item, "foreign": foreign, "foreign2": foreign2, "prev-join": prev, "base2": base2, "update": upd, "declared-cte": reg["AliasedQuery"]("d_cte"), "undeclared-cte": reg["AliasedQuery"]("zz_cte"),
             "base-copy": w.equal_copy(case["base"], "b", base), "item-copy": w.equal_copy(case["item"], "j", item), "none": None}
 
+    # what happened to the partial statement before: nothing / sibling branches joined the other tables (and one tried an invalid
+    # join) and were discarded / it was rendered / the join is made on a copy.  None of it may change the verdict.
+    pre = case.get("pre")
+    if pre == "siblings":
+        anchor = available[0]
+        for name in ("foreign", "foreign2", "base2", "undeclared-cte"):
+            t_ = pool[name]
+            if any(same(t_, s_, reg) for s_ in available):
+                continue
+            try:
+                q.join(t_).on(reg["Field"]("id", table=t_) == reg["Field"]("id", table=anchor))
+                q.join(item).on(reg["Field"]("id", table=t_) == reg["Field"]("id", table=item))
+            except Exception:
+                pass
+        try:
+            q.join(item).on(reg["Field"]("id", table=item) == reg["Field"]("id", table=anchor))
+        except Exception:
+            pass
+        mon.count("join_calls_after_sibling_branches")
+    elif pre == "render":
+        try:
+            str(q)
+            q.get_sql(contexts()[case["d"]])
+        except Exception:
+            pass
+        mon.count("join_calls_after_render")
+    elif pre == "copy":
+        import copy as _copy
+        q = _copy.copy(q)
+        mon.count("join_calls_on_copy")
+
     def operand(src, col, form):
         tbl = pool[src]
-        f = reg["Field"](col, table=tbl) if tbl is None or isinstance(tbl, reg["_SetOperation"]) is False and tbl is None else None
         f = reg["Field"](col, table=tbl)
         refs = [tbl]
         if form == "fn":
@@ -529,6 +562,30 @@ def run_returning(case, mon):
     elif term == "tuple":
         arg = reg["Tuple"](t.a, 1)
         tables = [t]
+    elif term == "arith-mixed":
+        arg = t.a + f.a
+        tables = [t, f]
+    elif term == "arith-mixed-rev":
+        arg = (f.n * 2) - t.id
+        tables = [f, t]
+    elif term == "arith-own-joined":
+        arg = t.id + u.n
+        tables = [t, u]
+    elif term == "arith-joined-own":
+        arg = u.n - t.id
+        tables = [u, t]
+    elif term == "arith-joined-foreign":
+        arg = u.n + f.n
+        tables = [u, f]
+    elif term == "tuple-mixed":
+        arg = reg["Tuple"](t.a, f.a)
+        tables = [t, f]
+    elif term == "arith-own-own":
+        arg = t.a * t.b + 1
+        tables = [t]
+    elif term == "nested-arith-mixed":
+        arg = (t.a + 1) * ((t.b - 2) / (f.c + 3))
+        tables = [t, f]
     elif term == "field-equal-copy":
         arg = T("t").id
         tables = [T("t")]
